@@ -65,18 +65,21 @@ pub fn size(f: &F) -> usize {
 pub enum Outcome {
     Done(F),
     Nonterminating,
+    /// the bounded replay converged, the real `Apply::apply_fixpoint` returned something else
+    FixpointDiffers(F),
 }
 
 /// exactly procedures.rs: `portfolio.into_iter().compose()`, then
 /// shallow = call once, recursive = `apply`, fixpoint = `apply_fixpoint` (re-implemented with a
 /// bound on the number of iterations: the original loop is unbounded)
 pub fn run_strategy(portfolio: Vec<fn(F) -> F>, strategy: Strategy, formula: F) -> Outcome {
-    let mut simplification = portfolio.into_iter().compose();
+    let mut simplification = portfolio.clone().into_iter().compose();
     match strategy {
         Strategy::Shallow => Outcome::Done(simplification(formula)),
         Strategy::Recursive => Outcome::Done(formula.apply(&mut simplification)),
         Strategy::Fixpoint => {
             // Apply::apply_fixpoint with fuel
+            let input = formula.clone();
             let mut previous = formula;
             let mut current = previous.clone().apply(&mut simplification);
             let mut fuel = FIXPOINT_FUEL;
@@ -87,6 +90,13 @@ pub fn run_strategy(portfolio: Vec<fn(F) -> F>, strategy: Strategy, formula: F) 
                 fuel -= 1;
                 previous = current;
                 current = previous.clone().apply(&mut simplification);
+            }
+            // the replay converged, so the real (unbounded) loop returns: run it as well; the
+            // replay above is the harness's own loop and does not see a change of the loop in /repo
+            let mut real_portfolio = portfolio.into_iter().compose();
+            let real = input.apply_fixpoint(&mut real_portfolio);
+            if real != current {
+                return Outcome::FixpointDiffers(real);
             }
             Outcome::Done(current)
         }
@@ -457,14 +467,17 @@ fn redex_ste(rng: &mut Rng, c: &g::Cfg, depth: usize) -> F {
     // portfolio is composed (shallow: at the root; recursive / fixpoint: at the quantifier node)
     let protected = rng.chance(35);
     let (x, y, t) = if protected {
-        let s = if rng.chance(70) { Sort::Integer } else { Sort::Symbol };
+        let s = if rng.chance(65) { Sort::Integer } else { Sort::Symbol };
         let xn: &str = *rng.pick(&c.var_names);
         let x = var(xn, s);
         let y = if rng.chance(10) {
             x.clone()
         } else {
             let yn: &str = *rng.pick(&c.var_names);
-            let ys = if rng.chance(85) { s } else { g::sort(rng, c) };
+            // mostly the same sort; otherwise any of the three sorts, uniformly (the rule keeps /
+            // drops a variable according to the subsort relation: every pair of sorts must occur,
+            // the incomparable pair integer / symbol included)
+            let ys = if rng.chance(70) { s } else { *rng.pick(&[Sort::General, Sort::Integer, Sort::Symbol]) };
             var(yn, ys)
         };
         let t = match rng.weighted(&[8, 1, 1]) {
